@@ -11,7 +11,7 @@
 (***************************************************************************)
 EXTENDS RulesAlpha, TLC, Json, VerifParams
 
-CONSTANTS Alphabet, MaxLen, Lim, Reasons, Prefix, Filter(_, _)
+CONSTANTS Alphabet, MaxLen, Lim, Reasons, Prefix, Filter(_, _), OnlyComplete
 
 VARIABLES si, sa, hist, div
 
@@ -27,6 +27,24 @@ Init == /\ si = RunPrefix(InitState(Lim, {}), Prefix)
         /\ hist = <<>>
         /\ div = [at |-> 0, st |-> "", devs |-> {}]
 
+(* a lower bound on the number of events still needed to reach acceptance  *)
+(* (used to prune behaviours that cannot complete within the bound when    *)
+(* only complete documents are wanted: the corpus)                        *)
+NeedOf(en) ==
+  CASE en.rule \in {"List", "MapKey", "RecordType"} -> 1
+    [] en.rule \in {"MapValue", "Node"} -> 2
+    [] en.rule = "EdgeSource" -> 4
+    [] en.rule = "EdgeDescription" -> 3
+    [] en.rule = "EdgeDestination" -> (3 - en.cur) + 1
+    [] en.rule = "Record" -> (en.exp - en.cur) + 1
+    [] en.rule \in {"MarkedAny", "MarkedKeyable", "TopLevel", "Version", "EndDocument"} -> 1
+    [] en.rule = "BeginDocument" -> 2
+    [] en.rule \in {"Array", "String", "ArrayChunk", "StringChunk"} -> 1
+    [] OTHER -> 0
+RECURSIVE SumNeed(_, _)
+SumNeed(stk, i) == IF i = 0 THEN 0 ELSE NeedOf(stk[i]) + SumNeed(stk, i - 1)
+Need(s) == SumNeed(s.stack, Len(s.stack)) + (IF s.stack[1].rule = "TopLevel" THEN 1 ELSE 0)
+
 Leaf == si.st = "rejected" \/ Len(hist) >= MaxLen
 
 Next == /\ ~Leaf
@@ -36,6 +54,7 @@ Next == /\ ~Leaf
              /\ sa' = IF OpenDevs = {} THEN si' ELSE Step(sa, Alphabet[i])
              /\ si'.st = "rejected" => si'.why \in Reasons
              /\ hist' = Append(hist, i)
+             /\ OnlyComplete => (si'.st = "ok" /\ Need(si') <= MaxLen - Len(hist'))
              /\ div' = IF div.at = 0 /\ Status(si') # Status(sa')
                        THEN [at |-> Len(hist) + 1, st |-> Status(sa'), devs |-> sa'.devs]
                        ELSE div
